@@ -43,9 +43,12 @@ Definition dec_list {A} (f : yv -> res A) (v : yv) : res (list A) :=
 Definition dec_ptr {A} (f : yv -> res A) (v : yv) : res (option A) :=
   match v with VNull => Ok None | _ => rmap Some (f v) end.
 
-(* field lookup: entries whose key folds to the field name *)
+(* field lookup: entries whose key folds to the field name.  The keys of the mapping are lowered once
+   (lower_keys); field names are written in lower case below. *)
+Definition lower_keys (m : list (yv * yv)) : list (yv * yv) :=
+  map (fun kv => (match fst kv with VStr k => VStr (lower k) | x => x end, snd kv)) m.
 Definition key_is (name : string) (kv : yv * yv) : bool :=
-  match fst kv with VStr k => eqfold k name | _ => false end.
+  match fst kv with VStr k => String.eqb k name | _ => false end.
 Definition field (m : list (yv * yv)) (name : string) : yv :=
   match filter (key_is name) m with
   | [] => VNull
@@ -55,7 +58,7 @@ Definition field (m : list (yv * yv)) (name : string) : yv :=
 (* keys: Panic on a non-string key of a nested struct map; Err on an unknown key or two keys of one field *)
 Definition keys_check (nested : bool) (fields : list string) (m : list (yv * yv)) : res unit :=
   if nested && negb (forallb (fun kv => is_vstr (fst kv)) m) then Panic
-  else if forallb (fun kv => match fst kv with VStr k => existsb (eqfold k) fields | _ => false end) m &&
+  else if forallb (fun kv => match fst kv with VStr k => existsb (String.eqb k) fields | _ => false end) m &&
           forallb (fun f => Nat.leb (List.length (filter (key_is f) m)) 1) fields
        then Ok tt else Err.
 
@@ -63,21 +66,21 @@ Definition keys_check (nested : bool) (fields : list string) (m : list (yv * yv)
 Definition dec_struct {A} (nested : bool) (fields : list string) (zero : A) (body : list (yv * yv) -> res A) (v : yv) : res A :=
   match v with
   | VNull => Ok zero
-  | VMap m => rmap snd (rpair (keys_check nested fields m) (body m))
+  | VMap m0 => let m := lower_keys m0 in rmap snd (rpair (keys_check nested fields m) (body m))
   | _ => Err
   end.
 
 Definition zero_cond := {| c_condition := ""; c_expected := "" |}.
 Definition dec_conditionDef : yv -> res conditionDef :=
-  dec_struct true ["Condition"; "Expected"] zero_cond (fun m =>
+  dec_struct true ["condition"; "expected"] zero_cond (fun m =>
     rmap (fun p => {| c_condition := fst p; c_expected := snd p |})
-         (rpair (dec_string (field m "Condition")) (dec_string (field m "Expected")))).
+         (rpair (dec_string (field m "condition")) (dec_string (field m "expected")))).
 
 Definition zero_func := {| f_name := ""; f_params := ""; f_command := "" |}.
 Definition dec_funcDef : yv -> res funcDef :=
-  dec_struct true ["Name"; "Params"; "Command"] zero_func (fun m =>
+  dec_struct true ["name"; "params"; "command"] zero_func (fun m =>
     rmap (fun p => {| f_name := fst (fst p); f_params := snd (fst p); f_command := snd p |})
-         (rpair (rpair (dec_string (field m "Name")) (dec_string (field m "Params"))) (dec_string (field m "Command")))).
+         (rpair (rpair (dec_string (field m "name")) (dec_string (field m "params"))) (dec_string (field m "command")))).
 
 (* map[string]any: keys string (null = ""), anything else is an error; values raw *)
 Fixpoint dec_args_entries (m : list (yv * yv)) : res (list (string * yv)) :=
@@ -92,25 +95,25 @@ Definition dec_args (v : yv) : res (list (string * yv)) :=
 
 Definition zero_call := {| cf_function := ""; cf_args := [] |}.
 Definition dec_callFuncDef : yv -> res callFuncDef :=
-  dec_struct true ["Function"; "Args"] zero_call (fun m =>
+  dec_struct true ["function"; "args"] zero_call (fun m =>
     rmap (fun p => {| cf_function := fst p; cf_args := snd p |})
-         (rpair (dec_string (field m "Function")) (dec_args (field m "Args")))).
+         (rpair (dec_string (field m "function")) (dec_args (field m "args")))).
 
 Definition dec_continueOn : yv -> res continueOnDef :=
-  dec_struct true ["Failure"; "Skipped"] {| co_failure := false; co_skipped := false |} (fun m =>
+  dec_struct true ["failure"; "skipped"] {| co_failure := false; co_skipped := false |} (fun m =>
     rmap (fun p => {| co_failure := fst p; co_skipped := snd p |})
-         (rpair (dec_bool (field m "Failure")) (dec_bool (field m "Skipped")))).
+         (rpair (dec_bool (field m "failure")) (dec_bool (field m "skipped")))).
 Definition dec_repeatPolicy : yv -> res repeatPolicyDef :=
-  dec_struct true ["Repeat"; "IntervalSec"] {| rp_repeat := false; rp_intervalSec := 0 |} (fun m =>
+  dec_struct true ["repeat"; "intervalsec"] {| rp_repeat := false; rp_intervalSec := 0 |} (fun m =>
     rmap (fun p => {| rp_repeat := fst p; rp_intervalSec := snd p |})
-         (rpair (dec_bool (field m "Repeat")) (dec_int (field m "IntervalSec")))).
+         (rpair (dec_bool (field m "repeat")) (dec_int (field m "intervalsec")))).
 Definition dec_retryPolicy : yv -> res retryPolicyDef :=
-  dec_struct true ["Limit"; "IntervalSec"] {| rt_limit := 0; rt_intervalSec := 0 |} (fun m =>
+  dec_struct true ["limit"; "intervalsec"] {| rt_limit := 0; rt_intervalSec := 0 |} (fun m =>
     rmap (fun p => {| rt_limit := fst p; rt_intervalSec := snd p |})
-         (rpair (dec_int (field m "Limit")) (dec_int (field m "IntervalSec")))).
+         (rpair (dec_int (field m "limit")) (dec_int (field m "intervalsec")))).
 
-Definition step_fields := ["Name"; "Description"; "Dir"; "Executor"; "Command"; "Script"; "Stdout"; "Stderr"; "Output";
-  "Depends"; "ContinueOn"; "RetryPolicy"; "RepeatPolicy"; "MailOnError"; "Preconditions"; "SignalOnStop"; "Env"; "Call"; "Run"; "Params"].
+Definition step_fields := ["name"; "description"; "dir"; "executor"; "command"; "script"; "stdout"; "stderr"; "output";
+  "depends"; "continueon"; "retrypolicy"; "repeatpolicy"; "mailonerror"; "preconditions"; "signalonstop"; "env"; "call"; "run"; "params"].
 Definition zero_step : stepDef :=
   {| sd_name := ""; sd_description := ""; sd_dir := ""; sd_executor := VNull; sd_command := VNull; sd_script := "";
      sd_stdout := ""; sd_stderr := ""; sd_output := ""; sd_depends := []; sd_continueOn := None; sd_retryPolicy := None;
@@ -123,49 +126,49 @@ Definition dec_stepDef : yv -> res stepDef :=
     rmap (fun p =>
             let '(name, desc, dir, script, out, err, output, senv, run, params,
                   depends, con, retry, repeat, moe, pre, sig, call) := p in
-            {| sd_name := name; sd_description := desc; sd_dir := dir; sd_executor := field m "Executor";
-               sd_command := field m "Command"; sd_script := script; sd_stdout := out; sd_stderr := err; sd_output := output;
+            {| sd_name := name; sd_description := desc; sd_dir := dir; sd_executor := field m "executor";
+               sd_command := field m "command"; sd_script := script; sd_stdout := out; sd_stderr := err; sd_output := output;
                sd_depends := depends; sd_continueOn := con; sd_retryPolicy := retry; sd_repeatPolicy := repeat;
                sd_mailOnError := moe; sd_preconditions := pre; sd_signalOnStop := sig; sd_env := senv; sd_call := call;
                sd_run := run; sd_params := params |})
       (rpair (rpair (rpair (rpair (rpair (rpair (rpair (rpair (rpair (rpair (rpair (rpair (rpair (rpair (rpair (rpair (rpair
-        (s "Name") (s "Description")) (s "Dir")) (s "Script")) (s "Stdout")) (s "Stderr")) (s "Output")) (s "Env")) (s "Run")) (s "Params"))
-        (dec_list dec_string (field m "Depends")))
-        (dec_ptr dec_continueOn (field m "ContinueOn")))
-        (dec_ptr dec_retryPolicy (field m "RetryPolicy")))
-        (dec_ptr dec_repeatPolicy (field m "RepeatPolicy")))
-        (dec_bool (field m "MailOnError")))
-        (dec_list (dec_ptr dec_conditionDef) (field m "Preconditions")))
-        (dec_ptr dec_string (field m "SignalOnStop")))
-        (dec_ptr dec_callFuncDef (field m "Call")))).
+        (s "name") (s "description")) (s "dir")) (s "script")) (s "stdout")) (s "stderr")) (s "output")) (s "env")) (s "run")) (s "params"))
+        (dec_list dec_string (field m "depends")))
+        (dec_ptr dec_continueOn (field m "continueon")))
+        (dec_ptr dec_retryPolicy (field m "retrypolicy")))
+        (dec_ptr dec_repeatPolicy (field m "repeatpolicy")))
+        (dec_bool (field m "mailonerror")))
+        (dec_list (dec_ptr dec_conditionDef) (field m "preconditions")))
+        (dec_ptr dec_string (field m "signalonstop")))
+        (dec_ptr dec_callFuncDef (field m "call")))).
 
 Definition zero_handlers := {| h_failure := None; h_success := None; h_cancel := None; h_exit := None |}.
 Definition dec_handlerOn : yv -> res handlerOnDef :=
-  dec_struct true ["Failure"; "Success"; "Cancel"; "Exit"] zero_handlers (fun m =>
+  dec_struct true ["failure"; "success"; "cancel"; "exit"] zero_handlers (fun m =>
     rmap (fun p => let '(f, s, c, e) := p in {| h_failure := f; h_success := s; h_cancel := c; h_exit := e |})
-         (rpair (rpair (rpair (dec_ptr dec_stepDef (field m "Failure")) (dec_ptr dec_stepDef (field m "Success")))
-                       (dec_ptr dec_stepDef (field m "Cancel"))) (dec_ptr dec_stepDef (field m "Exit")))).
+         (rpair (rpair (rpair (dec_ptr dec_stepDef (field m "failure")) (dec_ptr dec_stepDef (field m "success")))
+                       (dec_ptr dec_stepDef (field m "cancel"))) (dec_ptr dec_stepDef (field m "exit")))).
 
 Definition zero_smtp := {| sm_host := ""; sm_port := ""; sm_username := ""; sm_password := "" |}.
 Definition dec_smtp : yv -> res smtpConfigDef :=
-  dec_struct true ["Host"; "Port"; "Username"; "Password"] zero_smtp (fun m =>
+  dec_struct true ["host"; "port"; "username"; "password"] zero_smtp (fun m =>
     rmap (fun p => let '(h, po, u, pw) := p in {| sm_host := h; sm_port := po; sm_username := u; sm_password := pw |})
-         (rpair (rpair (rpair (dec_string (field m "Host")) (dec_string (field m "Port")))
-                       (dec_string (field m "Username"))) (dec_string (field m "Password")))).
+         (rpair (rpair (rpair (dec_string (field m "host")) (dec_string (field m "port")))
+                       (dec_string (field m "username"))) (dec_string (field m "password")))).
 Definition zero_mail := {| mc_from := ""; mc_to := ""; mc_prefix := ""; mc_attachLogs := false |}.
 Definition dec_mailConfig : yv -> res mailConfigDef :=
-  dec_struct true ["From"; "To"; "Prefix"; "AttachLogs"] zero_mail (fun m =>
+  dec_struct true ["from"; "to"; "prefix"; "attachlogs"] zero_mail (fun m =>
     rmap (fun p => let '(f, t, pr, a) := p in {| mc_from := f; mc_to := t; mc_prefix := pr; mc_attachLogs := a |})
-         (rpair (rpair (rpair (dec_string (field m "From")) (dec_string (field m "To")))
-                       (dec_string (field m "Prefix"))) (dec_bool (field m "AttachLogs")))).
+         (rpair (rpair (rpair (dec_string (field m "from")) (dec_string (field m "to")))
+                       (dec_string (field m "prefix"))) (dec_bool (field m "attachlogs")))).
 Definition dec_mailOn : yv -> res mailOnDef :=
-  dec_struct true ["Failure"; "Success"] {| mo_failure := false; mo_success := false |} (fun m =>
+  dec_struct true ["failure"; "success"] {| mo_failure := false; mo_success := false |} (fun m =>
     rmap (fun p => {| mo_failure := fst p; mo_success := snd p |})
-         (rpair (dec_bool (field m "Failure")) (dec_bool (field m "Success")))).
+         (rpair (dec_bool (field m "failure")) (dec_bool (field m "success")))).
 
-Definition def_fields := ["Name"; "Group"; "Description"; "Schedule"; "LogDir"; "Env"; "HandlerOn"; "Functions"; "Steps"; "SMTP";
-  "MailOn"; "ErrorMail"; "InfoMail"; "TimeoutSec"; "DelaySec"; "RestartWaitSec"; "HistRetentionDays"; "Preconditions";
-  "MaxActiveRuns"; "Params"; "MaxCleanUpTimeSec"; "Tags"].
+Definition def_fields := ["name"; "group"; "description"; "schedule"; "logdir"; "env"; "handleron"; "functions"; "steps"; "smtp";
+  "mailon"; "errormail"; "infomail"; "timeoutsec"; "delaysec"; "restartwaitsec"; "histretentiondays"; "preconditions";
+  "maxactiveruns"; "params"; "maxcleanuptimesec"; "tags"].
 Definition zero_def : definition :=
   {| d_name := ""; d_group := ""; d_description := ""; d_schedule := VNull; d_logDir := ""; d_env := VNull;
      d_handlerOn := zero_handlers; d_functions := []; d_steps := []; d_smtp := zero_smtp; d_mailOn := None;
@@ -180,23 +183,23 @@ Definition dec_definition : yv -> res definition :=
     rmap (fun p =>
             let '(name, group, desc, logdir, params, tsec, dsec, rsec, mar, hist, mcu,
                   handlers, funcs, steps, smtp, mailon, email, imail, pre) := p in
-            {| d_name := name; d_group := group; d_description := desc; d_schedule := field m "Schedule"; d_logDir := logdir;
-               d_env := field m "Env"; d_handlerOn := handlers; d_functions := funcs; d_steps := steps; d_smtp := smtp;
+            {| d_name := name; d_group := group; d_description := desc; d_schedule := field m "schedule"; d_logDir := logdir;
+               d_env := field m "env"; d_handlerOn := handlers; d_functions := funcs; d_steps := steps; d_smtp := smtp;
                d_mailOn := mailon; d_errorMail := email; d_infoMail := imail; d_timeoutSec := tsec; d_delaySec := dsec;
                d_restartWaitSec := rsec; d_histRetentionDays := hist; d_preconditions := pre; d_maxActiveRuns := mar;
-               d_params := params; d_maxCleanUpTimeSec := mcu; d_tags := field m "Tags" |})
+               d_params := params; d_maxCleanUpTimeSec := mcu; d_tags := field m "tags" |})
       (rpair (rpair (rpair (rpair (rpair (rpair (rpair (rpair (rpair (rpair (rpair (rpair (rpair (rpair (rpair (rpair (rpair (rpair
-        (s "Name") (s "Group")) (s "Description")) (s "LogDir")) (s "Params"))
-        (i "TimeoutSec")) (i "DelaySec")) (i "RestartWaitSec")) (i "MaxActiveRuns"))
-        (dec_ptr dec_int (field m "HistRetentionDays"))) (dec_ptr dec_int (field m "MaxCleanUpTimeSec")))
-        (dec_handlerOn (field m "HandlerOn")))
-        (dec_list (dec_ptr dec_funcDef) (field m "Functions")))
-        (dec_list (dec_ptr dec_stepDef) (field m "Steps")))
-        (dec_smtp (field m "SMTP")))
-        (dec_ptr dec_mailOn (field m "MailOn")))
-        (dec_mailConfig (field m "ErrorMail")))
-        (dec_mailConfig (field m "InfoMail")))
-        (dec_list (dec_ptr dec_conditionDef) (field m "Preconditions")))).
+        (s "name") (s "group")) (s "description")) (s "logdir")) (s "params"))
+        (i "timeoutsec")) (i "delaysec")) (i "restartwaitsec")) (i "maxactiveruns"))
+        (dec_ptr dec_int (field m "histretentiondays"))) (dec_ptr dec_int (field m "maxcleanuptimesec")))
+        (dec_handlerOn (field m "handleron")))
+        (dec_list (dec_ptr dec_funcDef) (field m "functions")))
+        (dec_list (dec_ptr dec_stepDef) (field m "steps")))
+        (dec_smtp (field m "smtp")))
+        (dec_ptr dec_mailOn (field m "mailon")))
+        (dec_mailConfig (field m "errormail")))
+        (dec_mailConfig (field m "infomail")))
+        (dec_list (dec_ptr dec_conditionDef) (field m "preconditions")))).
 
 (* yaml.v2: a sequence or mapping as a key of a generic map is rejected ("invalid map key") *)
 Fixpoint yaml_ok (v : yv) : bool :=
